@@ -920,6 +920,9 @@ class Ev:
                     v = self.expr(e)
                     vals.append(v)
                     t = self.truth(v)
+                    ts_ = z3.simplify(t)
+                    if (is_and and z3.is_false(ts_)) or (not is_and and z3.is_true(ts_)):
+                        break   # constant short-circuit: later operands are never evaluated
                     self.guards.append(t if is_and else z3.Not(t))
             finally:
                 del self.guards[saved:]
